@@ -97,7 +97,10 @@ let rec cstmt_of (t : Sexp.t) : cstmt =
   | L [A "scall"; nm; d; L ps] ->
       SCall (xs (atom nm),
              (match d with A "dnone" -> DNone | A "dall" -> DAll | L [A "dexpr"; e] -> DExpr (cexpr_of e) | _ -> failwith "bad cdata"),
-             List.map (function L [k; e] -> (xs (atom k), cexpr_of e) | _ -> failwith "bad param") ps)
+             List.fold_right (fun p acc -> match p with
+               | L [A "pv"; k; e] -> PVal (xs (atom k), cexpr_of e, acc)
+               | L [A "pc"; k; body] -> PCont (xs (atom k), cblk_of body, acc)
+               | _ -> failwith "bad param") ps PNil)
   | L [A "scss"; A "none"; sfx] -> SCss (None, xs (atom sfx))
   | L [A "scss"; e; sfx] -> SCss (Some (cexpr_of e), xs (atom sfx))
   | L [A "sforrange"; x; L (a1 :: rest); body; hasie; ie] ->
